@@ -171,8 +171,8 @@ def _worker(args):
     out = []
     for k, j in enumerate(states):
         rng = random.Random(seed_ * 49979687 + base + k)
-        fam = nets.FAMS[(base + k) % len(nets.FAMS)]
-        g = Gamma(*fam)
+        fams = nets.FAMS + [("npint", "npint"), ("descset", "int"), ("collide", "int"), ("floatnode", "int")]
+        g = Gamma(*fams[(base + k) % len(fams)])
         vname, emap = rng.choice(obscore.edge_id_variants(j, rng))
         H = obscore.realise(j, g, rng, shuffle=True, edge_id_map=emap)
         # non-negative edge weights (0 switches an edge off); some edges keep the default
@@ -186,6 +186,12 @@ def _worker(args):
         for c in range(0, len(obs), 40):
             out.append({"rid": f"s{base + k}.{c}", "what": f"matrices of shape {base + k} ({g.name}/{vname})", "st": st,
                         "obs": obs[c:c + 40]})
+        if k % 5 == 0 and obscore.rewire_in_place(H, rng):  # same object, edited, evaluated again
+            st, anom = hg.proj(H, g)
+            obs = observe(H, g)
+            for c in range(0, len(obs), 40):
+                out.append({"rid": f"s{base + k}r.{c}", "what": f"matrices of shape {base + k} rewired in place ({g.name}/{vname})",
+                            "st": st, "obs": obs[c:c + 40]})
     return out
 
 
